@@ -534,12 +534,22 @@ def balanced_quotes(s):
     return True
 
 
+_SIMPLE_CONST = re.compile(r'^const ([A-Za-z_][\w:]*): (usize|isize|u8|u16|u32|u64|u128|i8|i16|i32|i64|i128|bool) = const ([\w-]+);$')
+
+
 def split_bodies(text):
     out = []; cur = None
     for line in text.split('\n'):
         if cur is None:
             if (line.startswith(('fn ', 'const ', 'static ')) and line.rstrip().endswith('{')):
                 cur = [line]
+            else:
+                # a constant item whose value is a plain scalar is printed on one line (`const N: usize = const 8_usize;`): give it the
+                # body the long form would have, so that a use of the named constant can be evaluated
+                m = _SIMPLE_CONST.match(line)
+                if m and '{' not in m.group(1):
+                    out.append(['const %s: %s = {' % (m.group(1), m.group(2)), '    let mut _0: %s;' % m.group(2), '', '    bb0: {',
+                                '        _0 = const %s;' % m.group(3), '        return;', '    }', '}'])
         else:
             cur.append(line)
             if line == '}':
